@@ -111,6 +111,7 @@ class PropSpec:
         self.functions = functions or []   # (file, qualname)
         self.extra_checks = extra_checks or []   # callables(tier, seed) -> list of result dicts (ground / bounded checks)
         self.notes = notes or []
+        self.lemma_replayers = {}
 
 
 def load_known():
@@ -268,6 +269,15 @@ def run_property(spec, tier='quick', seed=0, root='/repo', jobs=None):
         if 'replay' in ob:
             rec['replay'] = ob['replay']
         target = spec.targets.get(r['unit']) if r else None
+        lr = None
+        for pref, fnr in getattr(spec, 'lemma_replayers', {}).items():
+            if name.startswith(pref):
+                lr = fnr
+        if lr is not None and not confirmed and ob.get('model'):
+            try:
+                confirmed, rec['replay'] = lr(name, ob['model'], root)
+            except Exception as e:
+                rec['replay'] = {'note': 'replay error: ' + repr(e)}
         if target is not None and not confirmed:
             ok, rr = confirm_model(target, ob, root)
             rec['replay'] = rr
